@@ -139,6 +139,7 @@ Section Token.
   Theorem consumer_poll_takes_backpressure s s' :
     step F f s ACPoll = Some s' -> s'.(cst) <> CDone -> s'.(bp) = None /\ s'.(cwk) = wk_of s.(bp).
   Proof.
-    intros Hs. step_cases Hs; cbn; try done. intros Hn; by destruct Hn.
+    unfold step. destruct (pollable s); [|done]. destruct (pending s); [destruct (closed s)|].
+    all: intros [= <-]; cbn; try done.
   Qed.
 End Token.
